@@ -56,7 +56,102 @@ pub fn check(c: &Case, known: &Known, hazard: bool) -> Outcome {
     out
 }
 
+// ---------------------------------------------------------------------------------------
+// Window clause by function and dialect (all 12 dialects, no execution). SQLite decides what
+// `sum` / `average` see; the aggregation functions that accept a frame (sum, min, max, average,
+// count, stddev) must get the *same* OVER clause as `sum` in the same place, under every dialect:
+// partition, order and frame come from the enclosing group / sort / window, not from the function.
+
+#[derive(Clone, Debug, serde::Serialize, serde::Deserialize)]
+pub struct OverCase {
+    pub source: String,
+    pub from_fn: String,
+    pub to_fn: String,
+}
+
+const FRAME_FNS: &[&str] = &["sum", "min", "max", "average", "count", "stddev"];
+
+pub fn gen_over_case(t: &mut crate::tape::Tape) -> OverCase {
+    let mut cf = cfg();
+    cf.hazards = vec!["int_divi"];
+    let c = c01::gen_case(t, cf);
+    let source = crate::model::print::program(&c.prog);
+    let present: Vec<&str> = FRAME_FNS.iter().copied().filter(|f| regex::Regex::new(&format!(r"\b{f}\b")).unwrap().is_match(&source)).collect();
+    let from_fn = if present.is_empty() { "sum".to_string() } else { present[t.choose(present.len())].to_string() };
+    let others: Vec<&str> = FRAME_FNS.iter().copied().filter(|f| *f != from_fn).collect();
+    let to_fn = others[t.choose(others.len())].to_string();
+    OverCase { source, from_fn, to_fn }
+}
+
+/// the `OVER (...)` clauses of a statement, in order
+fn over_clauses(sql: &str) -> Vec<String> {
+    let mut out = vec![];
+    let b = sql.as_bytes();
+    let mut i = 0;
+    while let Some(p) = sql[i..].find(" OVER (") {
+        let start = i + p + 6;
+        let mut depth = 0i32;
+        let mut j = start;
+        while j < b.len() {
+            match b[j] {
+                b'(' => depth += 1,
+                b')' => {
+                    depth -= 1;
+                    if depth == 0 {
+                        break;
+                    }
+                }
+                _ => {}
+            }
+            j += 1;
+        }
+        out.push(sql[start..=j.min(b.len() - 1)].to_string());
+        i = j.min(b.len() - 1);
+    }
+    out
+}
+
+pub fn check_over(c: &OverCase, _known: &Known) -> Outcome {
+    use crate::util::{self, Compiled, DIALECTS};
+    let re = regex::Regex::new(&format!(r"\b{}\b", c.from_fn)).unwrap();
+    if !re.is_match(&c.source) {
+        return Outcome::skip("no_frame_function").class("no_frame_function");
+    }
+    let swapped = re.replace_all(&c.source, c.to_fn.as_str()).into_owned();
+    let mut out = Outcome::pass();
+    out.key = crate::runner::hash_of(&(&c.source, &c.to_fn));
+    let mut compared = 0;
+    for (dn, d) in DIALECTS {
+        let (a, b) = (util::compile(&c.source, Some(*d)), util::compile(&swapped, Some(*d)));
+        let (Compiled::Sql(a), Compiled::Sql(b)) = (a, b) else { continue };
+        let (oa, ob) = (over_clauses(&a), over_clauses(&b));
+        if oa.is_empty() {
+            continue;
+        }
+        compared += 1;
+        if oa != ob && util::genuinely_different(&|| format!("{:?}", over_clauses(&match util::compile(&c.source, Some(*d)) { Compiled::Sql(s) => s, _ => String::new() })), &|| format!("{:?}", over_clauses(&match util::compile(&swapped, Some(*d)) { Compiled::Sql(s) => s, _ => String::new() }))) {
+            return Outcome::fail(
+                &format!("under {dn} the window clause depends on the aggregation function ({} vs {})", c.from_fn, c.to_fn),
+                serde_json::json!({"source": c.source, "swapped": swapped, "dialect": dn, "over_clauses": oa, "over_clauses_swapped": ob, "sql": a, "sql_swapped": b}),
+            );
+        }
+        if oa.iter().any(|o| o.contains("ROWS BETWEEN") || o.contains("RANGE BETWEEN")) {
+            out.nontrivial = true;
+        }
+    }
+    if compared == 0 {
+        return Outcome::skip("no_over_clause").class("no_over_clause");
+    }
+    out.classes.push(format!("{}->{}", c.from_fn, c.to_fn));
+    out.sample = Some(serde_json::json!({"prql": c.source, "swap": format!("{} -> {}", c.from_fn, c.to_fn)}));
+    out
+}
+
 pub fn replay_any(check_name: &str, case: &Value, known: &Known) -> Option<Outcome> {
+    if check_name == "over-clause-by-function" {
+        let c: OverCase = serde_json::from_value(case.clone()).ok()?;
+        return Some(check_over(&c, known));
+    }
     if check_name == "probe" {
         return c01::replay_any(check_name, case, known);
     }
@@ -74,6 +169,10 @@ pub fn run(ctx: &Ctx) -> i32 {
         |t| c01::gen_case(t, cf.clone()),
         |c| check(c, &ctx.known, false),
     );
+    // (24+ compilations per evaluation: a smaller shrink budget)
+    let shrink = ctx.shrink_iters.swap(200, std::sync::atomic::Ordering::Relaxed);
+    ctx.tape_search("over-clause-by-function", ctx.n(2_500, 60_000), 450, gen_over_case, |c| check_over(c, &ctx.known));
+    ctx.shrink_iters.store(shrink, std::sync::atomic::Ordering::Relaxed);
     for h in ["unframed_last", "shadow", "win_over_win"] {
         let mut cf = cfg();
         cf.hazards = vec![h];
@@ -86,7 +185,7 @@ pub fn run(ctx: &Ctx) -> i32 {
         );
     }
     ctx.finish(
-        "window-biased abstract programs: group? (sort? (window rows/range/rolling/expanding? (derive {sum,min,max,average,count,lag,lead,first,rank,rank_dense,row_number ...}))), windowed values in derive / select / filter, before and after splits, partition keys with NULLs; executed on SQLite and compared row by row with a reference window evaluation (whole partition when no window is given, inclusive rows/range bounds, rolling:n = rows:(1-n)..0, expanding = rows:..0), which also fixes the row count. non-trivial = the SQL has an OVER clause and some result column varies between rows; distinct = hash of (source, target, instance)",
+        "window-biased abstract programs: group? (sort? (window rows/range/rolling/expanding? (derive {sum,min,max,average,count,lag,lead,first,rank,rank_dense,row_number ...}))), windowed values in derive / select / filter, before and after splits, partition keys with NULLs; executed on SQLite and compared row by row with a reference window evaluation (whole partition when no window is given, inclusive rows/range bounds, rolling:n = rows:(1-n)..0, expanding = rows:..0), which also fixes the row count. For the 11 dialects that are not executed: the OVER clauses of the statement must not change when one frame-accepting aggregation function (sum, min, max, average, count, stddev) is replaced by another (metamorphic; 12 dialects). non-trivial = the SQL has an OVER clause and some result column varies between rows; distinct = hash of (source, target, instance)",
         &[
             "rows frames, row_number, lag, lead, first over a non-total order are counted ambiguous",
             "a windowed sum over no non-null value may be 0 or NULL (the compiler deliberately omits COALESCE for window sums, #3587)",
